@@ -75,7 +75,7 @@ def skip_dir(n):
     return n in SKIP or n.endswith(".egg-info")
 
 
-def gen_tree(rng):
+def gen_tree(rng, shared_helpers=False):
     files = {}
     ndirs = rng.choice([2, 3, 4, 6])
     dirs = [""]
@@ -119,6 +119,18 @@ def gen_tree(rng):
         files[(d + "/" if d else "") + imp] = (form % mod) + "\n" + FX.format("i%d" % len(importers))
         files[(d + "/" if d else "") + mod + ".py"] = FX.format("m%d" % len(importers))
         importers.append(((d + "/" if d else "") + imp, (d + "/" if d else "") + mod + ".py"))
+    if shared_helpers:
+        # two importers in different directories the scan enters, each with its OWN `helpers.py` beside it, both
+        # importing the absolute name `helpers` (fixed shape: what a module name means depends on who imports it)
+        entered = [x for x in dirs if not any(skip_dir(c) for c in x.split("/") if c)]
+        free = [x for x in entered if (x + "/" if x else "") + "helpers.py" not in files
+                and not any(imp.startswith((x + "/" if x else "") + "test_sh") for imp, _ in importers)]
+        for j, x in enumerate(free[:2]):
+            pre = x + "/" if x else ""
+            form = ['pytest_plugins = ["%s"]', "from %s import *"][j % 2]
+            files[pre + "test_sh%d.py" % j] = (form % "helpers") + "\n" + FX.format("s%d" % j)
+            files[pre + "helpers.py"] = FX.format("h%d" % j)
+            importers.append((pre + "test_sh%d.py" % j, pre + "helpers.py"))
     return files, importers
 
 
@@ -151,7 +163,7 @@ def run(tier, seed):
     groups = []
     for i in range(n):
         rng = r.rng
-        files, importers = gen_tree(rng)
+        files, importers = gen_tree(rng, shared_helpers=(i % 6 == 0))
         unreadable = set(rng.sample(sorted(files), min(len(files), rng.choice([0, 0, 1, 2]))))
         patterns = rng.sample(PATTERNS, rng.choice([0, 0, 1, 2, 3]))
         # patterns that match a DIRECTORY of this tree but not the files below it: exclusion is per file
